@@ -210,7 +210,7 @@ def batches(draw):
 
 CLAUSES = [
     Clause('same-process-and-wrappers', check_inprocess, kind='random', strategy=inprocess_cases,
-           budget={'quick': 500, 'thorough': 6000}),
+           budget={'quick': 1000, 'thorough': 8000}),
     Clause('fresh-processes-hash-seeds', check_fresh_processes, kind='random', strategy=batches,
-           budget={'quick': 48, 'thorough': 640}),
+           budget={'quick': 96, 'thorough': 960}),
 ]
